@@ -838,6 +838,7 @@ func callarg[T any](k, i int) (r T) { return }
 func callres[T any](k, i int) (r T) { return }
 func typeid[T any]() int { return 0 }
 func freshid(i int) bool { return true }
+func allocatedid(i int) bool { return true }
 func maps[T any]() interface{} { return nil }
 func fields[T any]() interface{} { return nil }
 func pointee(x interface{}) interface{} { return nil }
